@@ -16,6 +16,7 @@ type Env struct {
 	Inc, Main                        *idl.File
 	E, IncE                          *idl.Enum
 	Inner, IncS, U, X                *idl.Struct
+	InnerD                           *idl.Struct // element struct with optional fields that have declared defaults
 	TdI32, TdE, TdS, TdL, TdTd, IncT *idl.Typedef
 	TdME, TdLE                       *idl.Typedef // typedef'd containers holding enums
 }
@@ -41,6 +42,8 @@ func NewEnv(ns string) *Env {
 	e.Main.Add(e.E)
 	e.Inner = &idl.Struct{Cat: "struct", Name: "Inner", Fields: []*idl.Field{fld(1, "a", i32, idl.ReqDefault, nil), fld(2, "b", str, idl.ReqOptional, nil)}}
 	e.Main.Add(e.Inner)
+	e.InnerD = &idl.Struct{Cat: "struct", Name: "InnerD", Fields: []*idl.Field{fld(1, "a", i32, idl.ReqDefault, nil), fld(2, "q", i32, idl.ReqOptional, idl.VI(7)), fld(3, "s", str, idl.ReqOptional, idl.VS("dq")), fld(4, "d", i32, idl.ReqDefault, idl.VI(5))}}
+	e.Main.Add(e.InnerD)
 	e.U = &idl.Struct{Cat: "union", Name: "U", Fields: []*idl.Field{fld(1, "n", idl.T(idl.I64), idl.ReqDefault, nil), fld(2, "s", str, idl.ReqDefault, nil)}}
 	e.Main.Add(e.U)
 	e.X = &idl.Struct{Cat: "exception", Name: "X", Fields: []*idl.Field{fld(1, "code", i32, idl.ReqDefault, nil), fld(2, "msg", str, idl.ReqOptional, nil)}}
@@ -75,7 +78,7 @@ func (e *Env) Leaves() []Named {
 		{"enum", idl.EnumT(e.E)}, {"struct", idl.StructT(e.Inner)}, {"union", idl.StructT(e.U)}, {"exception", idl.StructT(e.X)},
 		{"tdbase", idl.TypedefT(e.TdI32)}, {"tdenum", idl.TypedefT(e.TdE)}, {"tdstruct", idl.TypedefT(e.TdS)}, {"tdcont", idl.TypedefT(e.TdL)}, {"tdtd", idl.TypedefT(e.TdTd)},
 		{"incstruct", idl.StructT(e.IncS)}, {"incenum", idl.EnumT(e.IncE)}, {"inctd", idl.TypedefT(e.IncT)},
-		{"tdmapenum", idl.TypedefT(e.TdME)}, {"tdlistenum", idl.TypedefT(e.TdLE)},
+		{"tdmapenum", idl.TypedefT(e.TdME)}, {"tdlistenum", idl.TypedefT(e.TdLE)}, {"structdef", idl.StructT(e.InnerD)},
 	}
 }
 
